@@ -7,9 +7,9 @@ from . import core, runner
 from .core import Infra
 
 
-def _rerun(args):
+def _rerun(args, family="dispatch"):
     def f(ctx, scenario, out):
-        core.run_harness(ctx.need_harness(), ["dispatch"] + [str(a) for a in args] + ["-out", out], ctx.scratch.dir, timeout=1200)
+        core.run_harness(ctx.need_harness(), [family] + [str(a) for a in args] + ["-out", out], ctx.scratch.dir, timeout=1200)
     return f
 
 
@@ -132,6 +132,23 @@ def check(ctx):
         for o, a in produce(ctx, "d4", ["-mode", "d4", "-seed", ctx.seed + 1], shards):
             runner.run_job(ctx, _job(ctx, "d4", o, a))
             paths.append(o)
+        # C13 at start-up, on the real server.Start with real sockets: requests that arrive while the plugins are being set up
+        # are answered by the configured chain or not at all, and a configuration whose setup fails never answers
+        # (Lifecycle!Load before Open: NeverServesBare, FailedLoadNeverListened; the weakened design BindFirst must fail)
+        ctx.design("Lifecycle.tla", "Lifecycle_2_0.cfg", workers=2)
+        ctx.design("Lifecycle.tla", "Lifecycle_2_0_loadfails.cfg", workers=2)
+        if not ctx.quick:
+            ctx.design("Lifecycle.tla", "Lifecycle_2_0_bindfirst.cfg", expect_fail="NeverServesBare")
+            ctx.design("Lifecycle.tla", "Lifecycle_2_0_bindfirst_loadfails.cfg", expect_fail="FailedLoadNeverListened")
+        sargs = ["-mode", "startrace", "-seed", ctx.seed]
+        sr = os.path.join(ctx.scratch.sub("startrace"), "startrace.ndjson")
+        core.run_harness(ctx.need_harness(), ["lifecycle"] + [str(a) for a in sargs] + ["-out", sr], ctx.scratch.dir, timeout=600)
+        if _count([sr], lambda e: e["ev"] == "startrace") == 0:
+            raise Infra("the start-up race run produced no observation (no loopback socket on ::1?)")
+        runner.run_job(ctx, runner.TraceJob("startrace", "LifecycleTrace", sr, {"Lens": core.tla_set(["C13"])}, replay=_rerun(sargs, "lifecycle"),
+                                            boundary=lambda e: False, meta={"rerun_args": [str(a) for a in sargs], "family": "lifecycle", "module": "LifecycleTrace"}))
+        extra["startup_race_rounds"] = _count([sr], lambda e: e["ev"] == "startrace")
+        extra["startup_race_replies_checked"] = sum(json.loads(line).get("replies", 0) for line in open(sr))
         # last sentence of C13: built-in handlers only ever return nil together with stop
         from . import fam_plugins
         pa = ["-mode", "table", "-seed", ctx.seed]
@@ -154,7 +171,8 @@ def check(ctx):
         nontriv = extra["chains_stopped_early"]
         rule = ("all chains of 0..5 synthetic plugins (pass, modify, replace, stop, stop-with-nil) for both protocols, registered through "
                 "plugins.RegisterPlugin, loaded through plugins.LoadPlugins and driven through HandleMsg4/6; all plugin-kind lists (v4-only, v6-only, dual, "
-                "unknown, failing, nil handler) of the tier's length through LoadPlugins; distinct_nontrivial = chains that stopped before their last handler")
+                "unknown, failing, nil handler) of the tier's length through LoadPlugins; server.Start with a slow (and a slow, failing) plugin setup under a "
+                "stream of SOLICITs over a real socket; distinct_nontrivial = chains that stopped before their last handler")
     else:
         raise Infra("unknown property " + prop)
     extra["binding_selftest"] = selftest(ctx, paths[0], mut) if not ctx.violations else {"skipped": "violations reported"}
@@ -172,5 +190,6 @@ def replay(ctx, path):
     args = meta.get("rerun_args")
     if not args:
         raise Infra("replay meta has no rerun_args")
-    j = runner.TraceJob("replay", "DispatchTrace", None, {"Lens": core.tla_set([ctx.prop])}, replay=_rerun(args), boundary=lambda e: True)
+    j = runner.TraceJob("replay", meta.get("module", "DispatchTrace"), None, {"Lens": core.tla_set([ctx.prop])},
+                        replay=_rerun(args, meta.get("family", "dispatch")), boundary=lambda e: True)
     return runner.replay_dir(ctx, path, j)
